@@ -25,10 +25,12 @@ class LibRun:
         self.mir = mir; self.eng = mirsym.Engine(mir, types, timeout_ms); self.eng.overflow_panics = True
         self.n = 0
         e = self.eng
+        def D(name):
+            d = BitVec(name, 64); e.ctx.setdefault('lazy_ranges', []).append(ULT(d, 2)); return d
         def rec(st, kind, args): st.events.append((kind, list(args)))
         def interp_stub(en, st, fr, callee, args, R):
             self.n += 1; rec(st, 'interp', args)
-            return R(Enum(BitVec(f'interp_res_d!{self.n}', 64), {0: [V(BitVec(f'interp_res_v!{self.n}', 64), 'u64')], 1: [Opaque('err', ('interp',))]}, 'Result'))
+            return R(Enum(D(f'interp_res_d!{self.n}'), {0: [V(BitVec(f'interp_res_v!{self.n}', 64), 'u64')], 1: [Opaque('err', ('interp',))]}, 'Result'))
         e.add_stub(r'^(interpreter::)?execute_program$', interp_stub)
         e.add_stub(r'JitMemory::get_prog$', lambda en, st, fr, callee, args, R: R(Opaque('jitfn', (args[0],))))
         def ind(en, st, fr, fv, args, R):
@@ -37,7 +39,7 @@ class LibRun:
                 rec(st, 'jit', [fv.args[0]] + list(args)); return R(V(BitVec(f'jit_ret!{self.n}', 64), 'u64'))
             if isinstance(fv, Opaque) and fv.tag == 'fnptr':       # the verifier function pointer
                 rec(st, 'verifier', [fv] + list(args))
-                return R(Enum(BitVec(f'verdict!{self.n}', 64), {0: [Agg([], '()')], 1: [Opaque('err', ('verifier',))]}, 'Result'))
+                return R(Enum(D(f'verdict!{self.n}'), {0: [Agg([], '()')], 1: [Opaque('err', ('verifier',))]}, 'Result'))
             return NotImplemented
         e.ctx['indirect_call'] = ind
         def clif_exec(en, st, fr, callee, args, R):
@@ -45,21 +47,21 @@ class LibRun:
         e.add_stub(r'CraneliftProgram::execute$', clif_exec)
         def check_stub(en, st, fr, callee, args, R):
             self.n += 1; rec(st, 'verifier', [Opaque('fnptr', ('verifier::check',))] + list(args))
-            return R(Enum(BitVec(f'verdict!{self.n}', 64), {0: [Agg([], '()')], 1: [Opaque('err', ('verifier',))]}, 'Result'))
+            return R(Enum(D(f'verdict!{self.n}'), {0: [Agg([], '()')], 1: [Opaque('err', ('verifier',))]}, 'Result'))
         e.add_stub(r'^(verifier::)?check$', check_stub)
         def stack_validate(en, st, fr, callee, args, R):
             self.n += 1; rec(st, 'stack_validate', args)
-            return R(Enum(BitVec(f'sv!{self.n}', 64), {0: [LazyObj(f'stack_usage!{self.n}', 'StackUsage')], 1: [Opaque('err', ('stack_validate',))]}, 'Result'))
+            return R(Enum(D(f'sv!{self.n}'), {0: [LazyObj(f'stack_usage!{self.n}', 'StackUsage')], 1: [Opaque('err', ('stack_validate',))]}, 'Result'))
         e.add_stub(r'StackVerifier::stack_validate$', stack_validate)
         e.add_stub(r'StackVerifier::new$', lambda en, st, fr, callee, args, R: R(LazyObj('stack_verifier', 'StackVerifier', {0: args[0], 1: args[1]})))
         def jit_new(en, st, fr, callee, args, R):
             self.n += 1; rec(st, 'jit_new', args)
-            return R(Enum(BitVec(f'jitnew!{self.n}', 64), {0: [LazyObj(f'jitmem!{self.n}', 'JitMemory', {'tag': tuple(args)})], 1: [Opaque('err', ('jit',))]}, 'Result'))
+            return R(Enum(D(f'jitnew!{self.n}'), {0: [LazyObj(f'jitmem!{self.n}', 'JitMemory', {'tag': tuple(args)})], 1: [Opaque('err', ('jit',))]}, 'Result'))
         e.add_stub(r'JitMemory::new$', jit_new)
         e.add_stub(r'CraneliftCompiler::new$', lambda en, st, fr, callee, args, R: R(LazyObj('clif_compiler', 'CraneliftCompiler', {'helpers': args[0]})))
         def compile_fn(en, st, fr, callee, args, R):
             self.n += 1; rec(st, 'clif_compile', args)
-            return R(Enum(BitVec(f'clifnew!{self.n}', 64), {0: [LazyObj(f'clifprog!{self.n}', 'CraneliftProgram', {'tag': tuple(args)})], 1: [Opaque('err', ('cranelift',))]}, 'Result'))
+            return R(Enum(D(f'clifnew!{self.n}'), {0: [LazyObj(f'clifprog!{self.n}', 'CraneliftProgram', {'tag': tuple(args)})], 1: [Opaque('err', ('cranelift',))]}, 'Result'))
         e.add_stub(r'CraneliftCompiler::compile_function$', compile_fn)
         e.add_stub(r'^hashbrown::Hash(Map|Set)::(new|insert|clone)$', lambda en, st, fr, callee, args, R: (rec(st, callee.split('::')[-1] if True else '', args), R(Opaque('hashcontainer', (callee,))))[1])
         e.add_stub(r'as Clone>::clone$', lambda en, st, fr, callee, args, R: R(en.deref(st, args[0])))
